@@ -60,5 +60,6 @@ Definition spec (prop : str) (x o : sx) : sx :=
      else if str_eqb prop (bytes "C02") then mon_C02 x o
      else if str_eqb prop (bytes "C03") then mon_C03 x o
      else if str_eqb prop (bytes "C04") then mon_C04 x o
+     else if str_eqb prop (bytes "C06") || str_eqb prop (bytes "C05") then mon_C06_e2e x o
      else v_ok)
   else verdict false "unknown case family".
